@@ -498,7 +498,8 @@ impl Prop for C08 {
                         // explored on three fixed programs (independent of the corpus order)
                         let flat = lex::code_tokens(&u.text).join(" ");
                         let fixed = ["fn f ( ) { }", "mod m { fn f ( ) { } }", "impl S { fn f ( & self ) { } }"];
-                        if !(fixed.contains(&flat.as_str()) && lay == "LALL" && kv.is_empty()) {
+                        let has_comment = u.text.contains("/*") || u.text.contains("//");
+                        if !(fixed.contains(&flat.as_str()) && !has_comment && lay == "LALL" && kv.is_empty()) {
                             continue;
                         }
                     }
